@@ -243,6 +243,12 @@ def reply_table(ctx: Ctx, chk) -> None:
         if term is None:
             chk.refute(rule, key, f"`{norm(call)[:80]}` sends something that is not a locally constructed Message: not one of the specified reactions", loc)
             continue
+        import re as _re
+
+        if any(_re.search(r"(^|[^\w.])_[A-Z]\w*\(", str(x)) for x in term):
+            # a field of the reply is computed through a private collaborator class of the package that is not written
+            # out (`_Target(...).child(gateway)...`): what it evaluates to is not compared with the table
+            raise AnalysisError(f"REPLY-TABLE: a field of the reply sent by {f.qualname} goes through a private collaborator class (`{[str(x) for x in term if _re.search(r'(^|[^\w.])_[A-Z]', str(x))][0][:70]}`), which is not written out ({loc})")
         if f.fq in wrappers:
             want = wrappers[f.fq]
             if _match(term, want, ""):
